@@ -35,6 +35,9 @@ type Cluster struct {
 	// world hook fired just before a k8s GET is answered (used to change an
 	// object between the snapshot and escalator's fetch-latest)
 	BeforeGet func(name string)
+	// world hook fired when a node update arrives, before it is compared with the stored object
+	// (another writer changing the node between escalator's read and its write)
+	BeforeUpdate func(name string)
 }
 
 // View is the cluster as a scan can see it through the listers.
@@ -228,6 +231,12 @@ func (c *Cluster) updateNode(sent *v1.Node) (bool, runtime.Object, error) {
 		err := k8sErr(k, "nodes", sent.Name)
 		ev.Err, ev.Injected = err.Error(), true
 		return true, nil, err
+	}
+	if c.BeforeUpdate != nil {
+		c.BeforeUpdate(sent.Name)
+		if cur2, ok := c.Nodes[sent.Name]; ok {
+			ev.Before = cur2.DeepCopy()
+		}
 	}
 	cur, ok := c.Nodes[sent.Name]
 	if !ok {
